@@ -1,5 +1,6 @@
 """C16 — Hooked socket I/O reports exactly the bytes it transferred (data-flow skeleton)."""
 from rules.common import start
+from rules import wave2_nio
 from rules import nio
 
 
@@ -16,4 +17,9 @@ def run(tier):
         nio.window_rule(run, f, "C16-WINDOW")
         nio.result_rule(run, f, "C16-MINUS-ONE", "C16-TOTAL", "C16-ZERO")
         nio.head_rule(run, f, "C16-HEAD")
+    # clauses added for the wave-2 seeds (rules/wave2.py; DESIGN 12a)
+    for _cfg, f in fx.items():
+        wave2_nio.errno_not_stale_rule(run, f, "C16-ERRNO-FRESH")
+        wave2_nio.no_raw_array_rule(run, f, "C16-NO-RAW-ARRAY")
+        wave2_nio.index_advances_rule(run, f, "C16-INDEX-ADVANCES")
     return run.finish()
